@@ -22,7 +22,7 @@ RULE = (
 ASSUMPTIONS = ["Thompson-entropy tables are random: only the table-level arg-max is judged for DecoupledGP",
                "ties within 1e-12 are accepted in any order"]
 N = {"quick": 150, "thorough": 5000}
-REQUIRE = {"quick": {"evaluations_observed": 1500, "tables_checked": 800, "rule_values_checked": 1500, "data_delta_checked": 600,
+REQUIRE = {"quick": {"runs_reaching_200_rounds": 4, "evaluations_observed": 1500, "tables_checked": 800, "rule_values_checked": 1500, "data_delta_checked": 600,
                      "direct_joint_calls": 300, "direct_decoupled_calls": 300, "bandit_rounds": 100, "tie_tables": 100, "ad_sample_steps": 10, "ad_refine_steps": 10, "real_model_runs": 40, "rounds_with_non_ascending_active_set_order": 2, "batches_with_descending_objective_labels": 10}}
 TIMEOUT = {"quick": 1500, "thorough": 7200}
 ALL = ["PaVeBa", "PaVeBaGP-IH", "PaVeBaGP-DE", "PartialGP-rect", "PartialGP-ell", "VOGP", "EpsilonPAL", "Auer", "DecoupledGP", "VOGP", "PartialGP-rect"]
@@ -218,7 +218,25 @@ def directed_set_order(mon):
                     mon.count("rounds_with_non_ascending_active_set_order")
 
 
+LONG = ["Auer", "PaVeBaGP-IH", "VOGP", "Auer-emp", "EpsilonPAL", "PartialGP-rect", "PaVeBaGP-DE", "PaVeBa"]
+
+
+def long_run(mon, rng, k):
+    """260-330 rounds of the same few designs (anything periodic in the round counter is passed several times)"""
+    variant = LONG[k % len(LONG)]
+    case, order = runs.long_case(rng, variant)
+    tr = runs.run_case(case, order, mon, max_extra_steps=0)
+    mon.count("runs")
+    mon.count("long_runs")
+    for st in tr.steps:
+        if st["crash"] is None:
+            runchecks.check_acquisition(mon, tr, st)
+
+
 def shard(mon, tier, rng, shard_no, nshards):
+    for j in range(1 if tier == "quick" else 4):
+        if tier == "thorough" or shard_no % 2 == 0:
+            long_run(mon, rng, shard_no // 2 + j)
     n = max(len(ALL), N[tier] // nshards)
     if shard_no == 2 % nshards:
         directed_set_order(mon)
